@@ -15,3 +15,8 @@ def runTok (normalize : Bool) (bs : List UInt8) : String :=
   showDoc (tokenizeRunes env normalize (feed bs))
 
 end Driver.V2
+
+namespace Driver.V2
+open Driver LC.Utf8 LC.V2Tok
+def runNorm (bs : List UInt8) : String := hex (encode (normalizeRunes env bs))
+end Driver.V2
